@@ -132,7 +132,7 @@ def mode_histories(v, docs, n):
 def run(tier, seed, replay=None):
     v = common.Verdict("C14", tier, seed)
     rng = common.rng_for(seed, "C14", tier)
-    n = 1500 if tier == "quick" else 30000
+    n = 3000 if tier == "quick" else 30000
     docs = make_docs(rng, n)
     if replay:
         rp = json.load(open(replay))
